@@ -7,7 +7,7 @@ from lib import Result, RMODES, OMODES, model_call, run_sharded, e_fmt, e_f64, e
 RULE = ('float, Python-int, int64-array, int-list and narrow NumPy carriers (int8..uint64, float32, float16; a targeted 12% has inputs exact in float16/float32 whose transformed value needs more bits than the carrier); core-domain formats with n_word<=16, all 10 mode pairs, dyadic scale s = +-2^j (so that (v-b)/s is dyadic) and s = k/2^j with inputs chosen as v = s*t + b for a dyadic t, dyadic bias b; '
         'every intermediate (v-b, (v-b)/s, s*q, s*q+b) is verified to be an exact double before a case is used (cases failing that test are discarded and counted). Inputs t sweep codes and quarter-LSB offsets '
         'over twice the range. Observed: val, get_val(), upper, lower, precision, status after the constructor and after calls; best-size construction (no sizes given) for scaled objects. '
-        'Compared with Spec.quantize of t, s*code*2^-n_frac+b, the affine images of the limits, and with the model Conv.store_scaled. Non-trivial = quantization changes t; distinct by full input.')
+        '(O) a scaled object as first or second operand of + - * or as the out= target counts by the value it reads back: the result is the quantization of the exact result of the values under the modes and the scale of the result. Compared with Spec.quantize of t, s*code*2^-n_frac+b, the affine images of the limits, and with the model Conv.store_scaled. Non-trivial = quantization changes t; distinct by full input.')
 ASSUMPTIONS = ['the property quantifies over intermediates that are exact doubles; the harness checks that premise per case with exact rationals']
 
 def exact_double(q):
